@@ -107,6 +107,8 @@ def _rewrite_tuple(tp, mapping):
 
 
 class Census:
+    extra_precondition = None   # hook: f(fn, an, pv, cs, name) -> reason or None
+
     def __init__(self, F, rep, rule_prefix, in_scope):
         self.F = F
         self.rep = rep
@@ -268,6 +270,8 @@ class Census:
         self.counts["partial-call"] += 1
         key = self.key(fn, "partial-call", "%s(%s)" % (name, ", ".join(pp(a) for a in cs.args)))
         by = self.precondition(an, pv, cs, name)
+        if not by and self.extra_precondition:
+            by = self.extra_precondition(fn, an, pv, cs, name)
         if by:
             rep.ok(rule, key, where, by)
         else:
@@ -296,8 +300,10 @@ class Census:
             vv = v
             if i.op == "const" and i.args[1] == 0:
                 for f in facts:
-                    if f[0] == "false" and f[1].op == "call" and f[1].args[0].endswith("::is_empty") and f[1].args[2] and f[1].args[2][0] is vv:
-                        return "precondition: index 0 of a container tested non-empty"
+                    if f[0] == "false" and f[1].op == "call" and f[1].args[0].endswith("::is_empty") and f[1].args[2]:
+                        w = f[1].args[2][0]
+                        if w is vv or (w.op == "refval" and vv.op == "ref" and an.read(type("S", (), {"env": {}, "facts": facts})(), (vv.args[0], vv.args[1])) is w.args[0]):
+                            return "precondition: index 0 of a container tested non-empty"
         return None
 
     # ------------------------------------------------------------------ drops
